@@ -51,6 +51,7 @@ type Obligation struct {
 
 // Gen generates the verification conditions of one SSA function.
 type Gen struct {
+	loopEntry map[*ssa.BasicBlock]string // entry condition of each loop head
 	P  *Program
 	Fn *ssa.Function
 	FC *FuncContract // own contract (may be nil)
